@@ -7,7 +7,7 @@
 -/
 import HL.Lemmas.WsInv
 namespace HL.Lemmas.Refresh
-open HL.Index HL.Workspace HL.Lemmas.AList HL.Lemmas.Reach HL.Lemmas.Edges HL.Lemmas.Index
+open HL.Index HL.Workspace HL.Lemmas.AList HL.Lemmas.ReachIdx HL.Lemmas.Edges HL.Lemmas.Index
 open HL.Lemmas.WsInv HL.Spec.Rebuild
 
 /-! ### removing one unreachable file -/
